@@ -124,7 +124,13 @@ func TestGovcStandInMultipart(t *testing.T) {
 			}
 			return nil
 		}))
-		hr, err := req.BuildHTTP(runtime.MultipartFormMime, "/api", nil, strfmt.Default)
+		// the operation's media type: with a file parameter every media type is sent as a multipart document
+		// (application/x-www-form-urlencoded is left out: known finding client.mangleContentType#post.C11:describes~2)
+		opMediaType := runtime.MultipartFormMime
+		if len(files) > 0 {
+			opMediaType = []string{runtime.MultipartFormMime, runtime.JSONMime, "application/octet-stream", "Multipart/Form-Data"}[r.Intn(4)]
+		}
+		hr, err := req.BuildHTTP(opMediaType, "/api", nil, strfmt.Default)
 		if err != nil {
 			t.Fatalf("GOVC-STANDIN-FAIL building the upload (form %q, %d files): %v", form, len(files), err)
 		}
